@@ -149,15 +149,45 @@ fn hex(b: &[u8]) -> String {
     b.iter().map(|x| format!("{x:02x}")).collect()
 }
 
+/// one record for the class (panics = []) plus one record per DISTINCT panic message, so that every kind of
+/// panic is judged on its own
+fn emit_fuzz(out: &mut Out, class: &str, n: u64, panics: Vec<(String, String)>) {
+    out.ev(json!({"kind": "fuzz", "class": class, "inputs": n, "panics": []}));
+    let mut msgs: Vec<String> = panics.iter().map(|p| p.0.clone()).collect();
+    msgs.sort();
+    msgs.dedup();
+    for m in msgs {
+        let hs: Vec<&String> = panics.iter().filter(|p| p.0 == m).map(|p| &p.1).collect();
+        out.ev(json!({"kind": "fuzz", "class": class, "inputs": hs.len(), "msg": m, "panics": hs.iter().take(5).collect::<Vec<_>>()}));
+    }
+}
+
+/// inputs that once made the parser panic (kept so that the outcome does not depend on fuzzing luck; the packets
+/// under mutation contain random peer names, so a seed does not reproduce an input)
+const REGRESSION_INPUTS: [&str; 1] = [
+    // hickory-proto 0.26.1 tsig.rs:387 `end_idx - decoder.index()` (crafted TSIG record)
+    "000984000000000100000002045f703270045f756470056c6f63616c0000fa0001000000010026243478496d4343584134767a476c61474f48536932416e6c7666773344414d664933326c5100243478496d4343584134767a476c61474f48536932416e6c7666773344414d664933326c51000010800100000001005251646e73616464723d2f6970342f31302e302e302e312f7463702f343030312f7032702f516d514279614d7251706e487669387662754a313547634a353161464256396142626d727543436f664551595463243478496d4343584134767a476c61474f48536932416e6c7666773344414d664933326c51000010800100000001005251646e73616464723d2f6970342f31302e302e302e322f7463702f343030312f7032702f516d514279614d7251706e487669387662754a313547634a353161464256396142626d727543436f664551595463",
+];
+
 fn fuzz(out: &mut Out, seed: u64, n: u64, w: &World) {
     let mut rng = vcommon::rng(seed);
+    {
+        let mut panics: Vec<(String, String)> = vec![];
+        for h in REGRESSION_INPUTS {
+            let bytes: Vec<u8> = (0..h.len() / 2).map(|i| u8::from_str_radix(&h[2 * i..2 * i + 2], 16).unwrap()).collect();
+            if let Err(m) = vcommon::guard(|| verif::parse(&bytes, from_addr())) {
+                panics.push((m, h.to_string()));
+            }
+        }
+        emit_fuzz(out, "regress", REGRESSION_INPUTS.len() as u64, panics);
+    }
     // corpus of valid packets to mutate
     let addrs = expand(w, &w.ed, &[json!({"c": "ip4", "n": 1, "rep": 3}), json!({"c": "len", "len": 200, "i": 0, "rep": 2}), json!({"c": "space", "i": 0})]);
     let mut corpus: Vec<Vec<u8>> = vec![verif::build_query(), verif::build_service_discovery_response(7, Duration::from_secs(60))];
     corpus.extend(verif::build_query_response(9, w.ed, &addrs, Duration::from_secs(60)));
     corpus.extend(verif::build_query_response(9, w.sha, &addrs[..2], Duration::from_secs(1)));
     for class in ["random", "mutate", "truncate", "splice"] {
-        let mut panics = vec![];
+        let mut panics: Vec<(String, String)> = vec![];
         for _ in 0..n {
             let input: Vec<u8> = match class {
                 "random" => {
@@ -198,11 +228,11 @@ fn fuzz(out: &mut Out, seed: u64, n: u64, w: &World) {
                     v
                 }
             };
-            if vcommon::guard(|| verif::parse(&input, from_addr())).is_err() {
-                panics.push(hex(&input));
+            if let Err(m) = vcommon::guard(|| verif::parse(&input, from_addr())) {
+                panics.push((m, hex(&input)));
             }
         }
-        out.ev(json!({"kind": "fuzz", "class": class, "inputs": n, "panics": panics}));
+        emit_fuzz(out, class, n, panics);
     }
 }
 
@@ -222,16 +252,16 @@ fn main() {
             for s in vcommon::read_ndjson(a.get(0)) {
                 if s.get("kind").and_then(|k| k.as_str()) == Some("fuzz") {
                     // replay of a fuzz record: parse the recorded panicking inputs again
-                    let mut panics = vec![];
+                    let mut panics: Vec<(String, String)> = vec![];
                     let inputs = s["panics"].as_array().cloned().unwrap_or_default();
                     for h in &inputs {
                         let h = h.as_str().unwrap();
                         let bytes: Vec<u8> = (0..h.len() / 2).map(|i| u8::from_str_radix(&h[2 * i..2 * i + 2], 16).unwrap()).collect();
-                        if vcommon::guard(|| verif::parse(&bytes, from_addr())).is_err() {
-                            panics.push(h.to_string());
+                        if let Err(m) = vcommon::guard(|| verif::parse(&bytes, from_addr())) {
+                            panics.push((m, h.to_string()));
                         }
                     }
-                    out.ev(json!({"kind": "fuzz", "class": s["class"], "inputs": inputs.len(), "panics": panics}));
+                    emit_fuzz(&mut out, s["class"].as_str().unwrap_or("replay"), inputs.len() as u64, panics);
                     continue;
                 }
                 let s = if s.get("sched").is_some() { s["sched"].clone() } else { s };
